@@ -104,7 +104,9 @@ func NewProcess(opts ...ProcOpts) *Process {
 
 func (p *Process) run() int {
 	verifYield("run.enter", p.getName())
-	if p.isState(types.ProcessStateTerminating) {
+	if p.procRunCtx.Err() != nil {
+		// stopped before it was launched
+		p.onProcessEnd(types.ProcessStateCompleted)
 		return 0
 	}
 
@@ -121,6 +123,9 @@ loop:
 	for {
 		verifYield("run.beforeLaunch", p.getName())
 		err := p.setStateAndRun(p.getStartingStateName(), p.getProcessStarter())
+		if errors.Is(err, errProcessStopped) {
+			break loop
+		}
 		if err != nil {
 			log.Error().Err(err).Msgf(`Failed to run command ["%v"] for process %s`, strings.Join(p.getCommand(), `" "`), p.getName())
 			p.logBuffer.Write(err.Error())
@@ -733,9 +738,16 @@ func (p *Process) getStatusName() string {
 	return p.procState.Status
 }
 
+var errProcessStopped = errors.New("process was stopped before launch")
+
 func (p *Process) setStateAndRun(state string, runnable func() error) error {
 	p.stateMtx.Lock()
 	defer p.stateMtx.Unlock()
+	if p.procRunCtx.Err() != nil {
+		// a stop request arrived before the launch: stopProcess() found
+		// nothing running to signal, so the command must not be launched
+		return errProcessStopped
+	}
 	p.procState.Status = state
 	p.onStateChange(state)
 	return runnable()
